@@ -120,6 +120,6 @@ Next ==
 Spec == Init /\ [][Next]_tvars
 
 Done == (l = Len(Trace) + 1) => PrintT(<<"SUMMARY", Len(Trace), nbad, nunspec, njudged>>)
-WorldOK == GoSliceInv(world) /\ FrameInv(world)
+WorldOK == GoSliceInv(world)
 AllConsumed == TLCGet("stats").diameter - 1 = Len(Trace)
 =============================================================================
